@@ -44,3 +44,13 @@ Theorem C13_connect : forall (p : rxpkt),
                    else match pnum 41 (r_props p) with Some 0 => ConnAssert | _ => ConnAck p end).
 Proof. reflexivity. Qed.
 Print Assumptions C13_connect.
+
+(* the whole run loop, any number of turns (inbound packets and handle messages in any interleaving), no
+   transport fault: either it is still serving (parked on Pending with nothing to do - nothing reported), or it
+   reports exactly one result, and that result has one of the documented causes in the state its last turn started
+   from.  In particular it does not return while none of the causes has happened. *)
+Theorem C13_run_loop : forall (fuel : nat) (s : sys), wbudget s = None -> cph s = CRunning ->
+  tail_ev (settle_loop fuel s) = tail_ev s \/
+  exists s0 r, wbudget s0 = None /\ run_exit_cause s0 r /\ tail_ev (settle_loop fuel s) = tail_ev s ++ [ORun r].
+Proof. exact settle_loop_exit. Qed.
+Print Assumptions C13_run_loop.
